@@ -37,6 +37,7 @@ ChkPairLaws(e) ==
     /\ e.mul_p = Ser12(X!Mul(D12(e.e_pq), D12(e.e_p2q))) /\ e.e_pp2_q = e.mul_p            \* e(P+P',Q) = e(P,Q) e(P',Q)
     /\ e.mul_q = Ser12(X!Mul(D12(e.e_pq), D12(e.e_pq2))) /\ e.e_p_qq2 = e.mul_q            \* e(P,Q+Q') = e(P,Q) e(P,Q')
     /\ e.e_pp2_q = Ser12(PairDlog(BAddMod(FromBE(e.ka), FromBE(e.kc), R), FromBE(e.kb)))
+    /\ e.e_p_qq2 = Ser12(PairDlog(FromBE(e.ka), BAddMod(FromBE(e.kb), FromBE(e.kd), R)))
     /\ e.e_cp_dq = e.e_pow                                                                   \* e(cP, dQ) = e(P,Q)^(cd)
     /\ e.e_pow = Ser12(GtPowN(D12(e.e_pq), BMulMod(FromBE(e.kc), FromBE(e.kd), R)))
     /\ e.erm1_e = OneBytes                                                                   \* g^(r-1) * g = 1
